@@ -253,6 +253,7 @@ def rule_D2(ctx, rep, rid='D2'):
     if b is None:
         return
     rep.analysed(b)
+    b = inl(cad, b)
     T = Terms(b)
     fl = [bi for bi, t in b.calls() if callee_is(t, SINK_TRAIT + '::flush') and not b.blocks[bi]['cleanup']]
     cnt = count_events(b, lambda x: x in fl)
@@ -306,7 +307,10 @@ def rule_D3(ctx, rep, rid='D3', methods=('flush', 'stats')):
     if b is None:
         return
     rep.analysed(b)
-    T = Terms(b)
+    # private helpers of build() (a `start(..)` constructor ..) inlined; spawn function and worker constructor stay calls
+    spawners = set(x.path for x in cad.all_bodies if x.def_kind == 'Fn' and any(callee_is(t_, 'std::thread::functions::spawn', 'std::thread::builder::Builder::spawn') for _, t_ in x.calls()))
+    T = Terms(inl(cad, b, never=lambda x: x.path in spawners or (x.impl_self and x.impl_trait is None and type_head(x.locals[0]) == type_head(x.impl_self)
+                                                                  and type_head(x.impl_self) != Q and x.file.endswith('queuing.rs') and 'Sender' in str(cad.adts.get(type_head(x.impl_self), '')))))
     rts = ret_terms(T, [0])
     ok = False
     msg = 'build returns %s' % [fmt(x)[:200] for x in rts]
@@ -324,6 +328,13 @@ def rule_D3(ctx, rep, rid='D3', methods=('flush', 'stats')):
                     a = _arc_new_of(v)
                     if a is not None:
                         caps.append(a)
+                    v = norm(v)
+                    if v[0] == 'adt':
+                        # a captured private struct holding the task's state (named task object instead of captures)
+                        for _n2, v2 in v[3]:
+                            a = _arc_new_of(v2)
+                            if a is not None:
+                                caps.append(a)
             ok = arc is not None and arc[2] == (('param', 2),) and any(a == arc for a in caps)
             msg = 'handle.sink and the worker closure share one Arc::new(sink)' if ok else \
                 'handle.sink = %s ; closure captures %s' % (fmt(sink)[:160], [fmt(a)[:120] for a in caps])
